@@ -31,10 +31,11 @@ const (
 	cStuckUnsched   // created > 10 min ago, never scheduled
 	cStuckTerm      // terminating, grace period long over
 	cOldDSAvail     // adopted from the old DaemonSet: no template-hash annotation, available
+	cOldFailed      // outdated pod in phase Failed that the failed-pods back-off keeps on its node for now
 	c03Classes
 )
 
-var c03ClassNames = []string{"none", "upAvail", "upUnavail", "oldAvail", "oldUnavail", "oldTerm", "stuckUnsched", "stuckTerm", "oldDSAvail"}
+var c03ClassNames = []string{"none", "upAvail", "upUnavail", "oldAvail", "oldUnavail", "oldTerm", "stuckUnsched", "stuckTerm", "oldDSAvail", "oldFailed"}
 
 func c03Names(cl []int) []string {
 	out := make([]string, len(cl))
@@ -57,7 +58,7 @@ func c03Oracle(classes []int, deleted []bool, mu, mpsf int) (string, string) {
 		if c == cStuckUnsched || c == cStuckTerm {
 			stuck++
 		}
-		if c == cOldUnavail {
+		if c == cOldUnavail || c == cOldFailed {
 			oldUnavail++
 		}
 	}
@@ -72,7 +73,7 @@ func c03Oracle(classes []int, deleted []bool, mu, mpsf int) (string, string) {
 		switch classes[i] {
 		case cOldAvail, cOldDSAvail:
 			delAvail++
-		case cOldUnavail:
+		case cOldUnavail, cOldFailed:
 			delOldUnavail++
 		default:
 			return "C03/target: a pod that is not an outdated, non-terminating pod was deleted for updating",
@@ -139,6 +140,10 @@ func c03Pod(class int, ns, rsName, edsName, node, hash string, now time.Time) *c
 		dt := metav1.NewTime(now.Add(-10 * time.Minute))
 		g := int64(30)
 		p.DeletionTimestamp, p.DeletionGracePeriodSeconds = &dt, &g
+	case cOldFailed:
+		p.Annotations[v1.MD5ExtendedDaemonSetAnnotationKey] = old
+		p.Status.Phase = corev1.PodFailed
+		ready(false)
 	case cOldDSAvail:
 		delete(p.Annotations, v1.MD5ExtendedDaemonSetAnnotationKey)
 		p.Labels = map[string]string{"app": "old-ds", v1.ExtendedDaemonSetNameLabelKey: edsName}
@@ -241,7 +246,7 @@ func c03TwinOne(t *testing.T, run *h.Run, seq []int, cfg c03Config) {
 		eds.Spec.Strategy.RollingUpdate.MaxPodSchedulerFailure = w.IntOrStr(cfg.mpsf)
 		eds = v1.DefaultExtendedDaemonSet(eds, v1.ExtendedDaemonSetSpecStrategyCanaryValidationModeAuto)
 		hash := w.TemplateHash(&eds.Spec.Template)
-		rs := &v1.ExtendedDaemonSetReplicaSet{ObjectMeta: metav1.ObjectMeta{Namespace: "ns", Name: "foo-rs", CreationTimestamp: metav1.NewTime(now.Add(-2 * time.Hour)),
+		rs := &v1.ExtendedDaemonSetReplicaSet{ObjectMeta: metav1.ObjectMeta{Namespace: "ns", Name: "foo-rs", UID: "rs-uid", CreationTimestamp: metav1.NewTime(now.Add(-2 * time.Hour)),
 			Labels: map[string]string{v1.ExtendedDaemonSetNameLabelKey: "foo"}, Annotations: map[string]string{v1.MD5ExtendedDaemonSetAnnotationKey: hash},
 			OwnerReferences: []metav1.OwnerReference{{APIVersion: "datadoghq.com/v1alpha1", Kind: "ExtendedDaemonSet", Name: "foo", UID: eds.UID, Controller: ptrTrue()}}},
 			Spec: v1.ExtendedDaemonSetReplicaSetSpec{Template: eds.Spec.Template, TemplateGeneration: hash}}
@@ -276,6 +281,15 @@ func c03TwinOne(t *testing.T, run *h.Run, seq []int, cfg c03Config) {
 			objs = append(objs, oldDS("ns", "old", map[string]string{"app": "agent"}))
 		}
 		st := w.NewState(0, objs...)
+		for i, c := range seq {
+			if c == cOldFailed {
+				// the pod before this one failed 5 s ago on the same node and was cleaned up: the back-off holds this one
+				if st.Backoff == nil {
+					st.Backoff = map[string]w.BackoffEntry{}
+				}
+				st.Backoff[fmt.Sprintf("rs-uid/foo-rs/n%d", i+1)] = w.BackoffEntry{Backoff: 10 * time.Minute, LastUpdate: at - 5*time.Second}
+			}
+		}
 		l := w.NewLive(st, w.Config{})
 		l.API.ResetLog()
 		rr := l.ReconcileERS("ns", rs.Name)
@@ -330,5 +344,5 @@ func TestC03(t *testing.T) {
 	run.Sample(map[string]interface{}{"classes": []string{"stuckUnsched", "oldAvail", "none"}, "maxUnavailable": "50%", "maxPodSchedulerFailure": "1"})
 	run.Assumptions = []string{"map iteration order controlled by the tool-chain overlay (<= 8 entries: insertion order)",
 		"a terminating pod counts as not available (the statement's 'available daemon pod')"}
-	exit(run.Finish(fmt.Sprintf("every sequence (= node assignment AND map iteration order) of 9 node classes for 1..min(%d,6) nodes (7 nodes: 5 core classes) x 7 maxUnavailable x 3 maxPodSchedulerFailure through the real ManageDeployment; Reconcile-level twin (real R_ers on a prepared store) for 1..%d nodes; non-trivial = syncs that delete at least one pod, distinct by (n, #deleted, maxUnavailable)", maxN, twinN)))
+	exit(run.Finish(fmt.Sprintf("every sequence (= node assignment AND map iteration order) of 10 node classes for 1..min(%d,6) nodes (7 nodes: 5 core classes) x 7 maxUnavailable x 3 maxPodSchedulerFailure through the real ManageDeployment; Reconcile-level twin (real R_ers on a prepared store) for 1..%d nodes; non-trivial = syncs that delete at least one pod, distinct by (n, #deleted, maxUnavailable)", maxN, twinN)))
 }
